@@ -222,7 +222,9 @@ class Grid(object):
         if (time is None):
             list_of_files = glob(
                 "{0}/{1}_*".format(foldername, nameConvention))
-            filename = max(list_of_files)
+            # compare the times, not the strings (grid_1000000 > grid_999998)
+            filename = max(list_of_files, key=lambda name: int(
+                name.split('_')[-1].split('.')[0]))
         else:
             filename = "{0}/{1}_{2:06}.h5".format(
                 foldername, nameConvention, time)
